@@ -70,6 +70,39 @@ theorem observers (fs : FlatStack R S) (spec : List V) (h : fs.Rep spec) :
     exact ⟨u, by simp only [FlatStack.get, LawfulIdxCont.index_eq _ k hc, hi, h1], h3⟩
   · simp [FlatStack.iter, hlen]
 
+/-- a `copy` that succeeded appended its value -/
+theorem rep_copy_of_some (fs fs' : FlatStack R S) (spec : List V) (v : V) (h : fs.Rep spec)
+    (hc : fs.copy v = some fs') : fs'.Rep (spec ++ [v]) := by
+  have ha : Accepts fs.region v := by
+    apply Classical.byContradiction
+    intro hna
+    have := LawfulRegion.push_refuses fs.region v h.1 hna
+    simp [FlatStack.copy, this] at hc
+  obtain ⟨fs'', h1, h2⟩ := rep_copy fs spec v h ha
+  rw [h1] at hc
+  cases hc
+  exact h2
+
+/-- `extend` (and hence `Extend::extend`) is repeated `copy` -/
+theorem rep_extend (fs fs' : FlatStack R S) (spec vs : List V) (h : fs.Rep spec)
+    (he : fs.extend vs = some fs') : fs'.Rep (spec ++ vs) := by
+  induction vs generalizing fs spec with
+  | nil => simp only [FlatStack.extend, Option.some.injEq] at he; subst he; simpa using h
+  | cons v vs ih =>
+    simp only [FlatStack.extend] at he
+    cases hc : fs.copy v with
+    | none => simp [hc] at he
+    | some fs1 =>
+      simp only [hc] at he
+      have := ih fs1 (spec ++ [v]) (rep_copy_of_some fs fs1 spec v h hc) he
+      simpa using this
+
+/-- `from_iter` is `extend` on a fresh stack -/
+theorem rep_fromIter (fs' : FlatStack R S) (vs : List V)
+    (he : FlatStack.fromIter (R := R) (S := S) vs = some fs') : fs'.Rep vs := by
+  have := rep_extend (FlatStack.default : FlatStack R S) fs' [] vs rep_default he
+  simpa using this
+
 /-- `clear` empties the stack -/
 theorem rep_clear (fs : FlatStack R S) (spec : List V) (h : fs.Rep spec) : fs.clear.Rep ([] : List V) := by
   refine ⟨LawfulRegion.clear_inv _ h.1, LawfulIdxCont.inv_clear _, ?_, ?_⟩
